@@ -108,16 +108,22 @@ fn c17_t_index_sections() {
 // ---- .debug_aranges: the first tuple sits at the first multiple of the tuple size after the header (DWARF 5 §6.1.2) ----
 fn aranges_padding(dwarf64: bool, asz: usize) {
     let mut buf: [u8; 64] = kani::any();
+    // header size: initial length (4|12) + version 2 + debug_info_offset (4|8) + address_size 1 + segment_size 1
+    let hdr = if dwarf64 { 12 + 2 + 8 + 2 } else { 4 + 2 + 4 + 2 };
+    let tuple = 2 * asz;
+    let first = (hdr + tuple - 1) / tuple * tuple;
+    // the set ends right after its first tuple (keeps the null-tuple skipping loop at one iteration)
+    let total = first + tuple;
     let mut p = 0;
     if dwarf64 {
         buf[0] = 0xff;
         buf[1] = 0xff;
         buf[2] = 0xff;
         buf[3] = 0xff;
-        buf[4..12].copy_from_slice(&52u64.to_le_bytes());
+        buf[4..12].copy_from_slice(&((total - 12) as u64).to_le_bytes());
         p = 12;
     } else {
-        buf[0..4].copy_from_slice(&60u32.to_le_bytes());
+        buf[0..4].copy_from_slice(&((total - 4) as u32).to_le_bytes());
         p = 4;
     }
     buf[p] = 2;
@@ -126,13 +132,10 @@ fn aranges_padding(dwarf64: bool, asz: usize) {
     p += if dwarf64 { 8 } else { 4 }; // debug_info_offset (symbolic)
     buf[p] = asz as u8;
     buf[p + 1] = 0;
-    p += 2;
-    let tuple = 2 * asz;
-    let first = (p + tuple - 1) / tuple * tuple;
-    let s = DebugAranges::new(&buf[..], LittleEndian);
+    let s = DebugAranges::new(&buf[..total], LittleEndian);
     let h = s.headers().next().unwrap().unwrap();
     assert!(h.encoding().address_size as usize == asz && h.encoding().format == if dwarf64 { Format::Dwarf64 } else { Format::Dwarf32 });
-    assert!(h.length() == if dwarf64 { 52 } else { 60 });
+    assert!(h.length() == total - if dwarf64 { 12 } else { 4 });
     let begin = ref_uint(&buf[first..], asz, false) as u64;
     let len = ref_uint(&buf[first + asz..], asz, false) as u64;
     // (a null first tuple is skipped: constrain it away so that the first yielded entry is the first tuple)
@@ -147,11 +150,11 @@ fn aranges_padding(dwarf64: bool, asz: usize) {
 macro_rules! aranges_lanes {
     ($($name:ident: $d:expr, $a:expr;)*) => { $(
         #[kani::proof]
-        #[kani::unwind(12)]
+        #[kani::unwind(10)]
         fn $name() { aranges_padding($d, $a) }
     )* };
 }
-aranges_lanes!(c17_q_aranges_pad_32_a4: false, 4; c17_t_aranges_pad_32_a8: false, 8; c17_q_aranges_pad_64_a4: true, 4;
+aranges_lanes!(c17_q_aranges_pad_32_a4: false, 4; c17_q_aranges_pad_32_a8: false, 8; c17_t_aranges_pad_64_a4: true, 4;
                c17_t_aranges_pad_64_a8: true, 8; c17_t_aranges_pad_32_a2: false, 2; c17_t_aranges_pad_64_a2: true, 2;
                c17_t_aranges_pad_32_a1: false, 1;);
 
